@@ -162,7 +162,8 @@ theorem glomit_ok (p : Prims) {rec : Rec σ} {fuel} (hIH : IH rec fuel) (spec : 
     intro kw
     split
     · split
-      · apply Hoare.bind (logOK_rel _) (callFn_ok ..); hauto
+      · apply Hoare.bind (logOK_rel _) (callValue_ok ..); hauto
+      · hauto
       · hauto
     · hauto
   | invoke func fis blocks =>
@@ -187,9 +188,7 @@ theorem glomit_ok (p : Prims) {rec : Rec σ} {fuel} (hIH : IH rec fuel) (spec : 
           exact ⟨List.all_eq_true.mp hb1.2 kv hkv, fun x hx => mem_append_r
             (List.mem_flatMap.mpr ⟨b, hb, mem_append_r (List.mem_flatMap.mpr ⟨kv, hkv, hx⟩)⟩)⟩
       · intro r
-        split
-        · apply Hoare.bind (logOK_rel _) (callFn_ok ..); hauto
-        · hauto
+        apply Hoare.bind (logOK_rel _) (callValue_ok ..); hauto
   | ref name sub =>
     cases sub with
     | none => simp [noRefF] at hno
@@ -275,6 +274,18 @@ theorem glomit_ok (p : Prims) {rec : Rec σ} {fuel} (hIH : IH rec fuel) (spec : 
           (fun s' hs' => by rw [List.eq_of_mem_replicate hs']; exact PA_self hno)
       · exact listLoop_ok (S (mode sc) _) s (PA_self hno) sc rfl items []
     · hauto
+  | optKey k => simp only [glomit]; split <;> hauto
+  | reqKey k =>
+    simp only [glomit, annotF, noRefF] at *
+    exact S (mode sc) _ k target sc (PA_self hno) rfl
+  | reenter vs s =>
+    simp only [glomit, annotF, noRefF] at *
+    apply Hoare.bind (logOK_rel _) (S (mode sc) _ s target sc (PA_self hno) rfl)
+    hauto
+  | rprobe id s =>
+    simp only [glomit, annotF, noRefF] at *
+    apply Hoare.bind (logOK_rel _) (Hoare.attempt (S (mode sc) _ s target sc (PA_self hno) rfl))
+    hauto
   | inspect s bp pm =>
     simp only [glomit, annotF, noRefF] at *
     apply Hoare.bind (logOK_rel _) (callOpt_ok ..)
@@ -283,8 +294,10 @@ theorem glomit_ok (p : Prims) {rec : Rec σ} {fuel} (hIH : IH rec fuel) (spec : 
     intro r
     split
     · hauto
-    · apply Hoare.bind (logOK_rel _) (callOpt_ok ..)
-      hauto
+    · split
+      · hauto
+      · apply Hoare.bind (logOK_rel _) (callOpt_ok ..)
+        hauto
 
 /-- the four mode functions and the argument mode on a plain object: sub-specs are evaluated in
     the same scope, hence in the same mode -/
